@@ -540,8 +540,9 @@ NOT_COVERED = {
             "incorporate_variants on FeatureIntervalCollection / AnnotationCollection (loops over the children: covered "
             "through the per-child contracts and the two-isoform GeneInterval case only)",
             "marshmallow field validation inside Schema().load (third-party; modelled as 'records its argument')"],
-    "C18": ["GenBank features grouped by locus tag under permutation of records (io/genbank/parser.py does not import "
-            "here; Biopython feature objects)"],
+    "C18": ["GenBank locus-tag grouping: decided for the two grouping methods on plain record objects carrying the "
+            "attributes they read (not on Biopython SeqFeature objects, and not through the conversion of the groups "
+            "into gene models: GeneFeature / TranscriptFeature constructors)"],
     "C01": ["CompoundInterval.relative_interval_to_parent_location / parent_to_relative_location / location_relative_to "
             "(block-list rebuild followed by constructor re-sort / optimize_blocks): proved for 1..3 blocks with symbolic "
             "coordinates, no contract for an arbitrary number of blocks",
@@ -554,7 +555,8 @@ NOT_COVERED = {
     "C03": ["Sequence.reverse_complement / append of sequences located on COMPOUND intervals symbolically (single-interval "
             "locations are proved on symbolic text; compound ones are in the bounded tier)"],
     "C08": ["marshmallow schema load/dump through JSON (io/models.py not importable)"],
-    "C11": ["parse-back leg (io/gff3/parser.py: gffutils objects), FASTA section"],
+    "C11": ["parse-back leg: BOUNDED only (natively through gffutils + _parse_genes; the marshmallow schema step and the "
+            "re-export of the parsed model need io/models.py, which cannot be imported), FASTA section"],
     "C12": ["not claimed"],
     "C17": ["partial / pseudo flags, feature kinds and locus-tag stepping for SYMBOLIC coordinates and sequences (decided on "
             "complete small domains executed in the verifier; random id strings are stubbed, reproducibility for a fixed "
